@@ -346,7 +346,7 @@ def glue_theorems(pid):
 
 
 # further property files of the same property (written in later rounds): every theorem in them is an obligation of that property
-EXTRA_FILES = {'C18': ['C18S'], 'C03': ['C03Q'], 'C13': ['C13B'], 'C16': ['C16B'], 'C12': ['C12S'], 'C01': ['C01P'], 'C04': ['C04C']}
+EXTRA_FILES = {'C18': ['C18S'], 'C03': ['C03Q'], 'C13': ['C13B'], 'C16': ['C16B', 'C16W', 'C16A'], 'C12': ['C12S'], 'C01': ['C01P'], 'C04': ['C04C'], 'C07': ['C07M'], 'C10': ['C10A']}
 
 
 def extra_modules(pid):
@@ -638,7 +638,8 @@ def write_replay(pid, seed, tier, payload):
 
 
 def write_evidence(pid, ev):
-    d = os.path.join(VERIF, 'evidence')
+    # tools/seedtest.py redirects the evidence of runs against a PATCHED /repo (never committed as evidence of the property)
+    d = os.environ.get('VERIF_EVIDENCE_DIR') or os.path.join(VERIF, 'evidence')
     os.makedirs(d, exist_ok=True)
     json.dump(ev, open(os.path.join(d, pid + '.json'), 'w'), indent=1)
 
